@@ -15,7 +15,7 @@
 #include "cimba.h"
 
 #define NB 3072
-struct th { uint64_t seed, n; int sampler; double p0, p1; uint64_t cnt[NB], below, above, nan; double mn, mx; };
+struct th { uint64_t seed, n; int sampler; double p0, p1; const double *vec; unsigned vn; uint64_t cnt[NB], below, above, nan; double mn, mx; };
 
 static void *body(void *vp)
 {
@@ -23,7 +23,29 @@ static void *body(void *vp)
     cmb_logger_flags_off(CMB_LOGGER_INFO | CMB_LOGGER_WARNING);
     cmb_random_initialize(t->seed);
     t->mn = INFINITY; t->mx = -INFINITY;
-    const double off = t->sampler >= 2 ? 12.0 : 0.0;
+    const double off = (t->sampler == 2 || t->sampler == 3) ? 12.0 : 0.0;
+    if (t->sampler >= 10) {       /* integer-valued samplers: one bin per value */
+        struct cmb_random_alias *al = t->sampler == 10 ? cmb_random_alias_create(t->vn, t->vec) : NULL;
+        for (uint64_t k = 0; k < t->n; k++) {
+            int64_t v;
+            switch (t->sampler) {
+            case 10: v = (int64_t)cmb_random_alias_sample(al); break;
+            case 11: v = (int64_t)cmb_random_loaded_dice(t->vn, t->vec); break;
+            case 12: v = cmb_random_dice((long)t->p0, (long)t->p1) - (long)t->p0; break;
+            case 13: v = (int64_t)cmb_random_flip(); break;
+            case 14: v = (int64_t)cmb_random_bernoulli(t->p0); break;
+            case 15: v = (int64_t)cmb_random_geometric(t->p0); break;
+            case 16: v = (int64_t)cmb_random_poisson(t->p0); break;
+            default: v = (int64_t)cmb_random_binomial((unsigned)t->p0, t->p1); break;
+            }
+            if ((double)v < t->mn) t->mn = (double)v;
+            if ((double)v > t->mx) t->mx = (double)v;
+            if (v < 0) t->below++; else if (v >= NB) t->above++; else t->cnt[v]++;
+        }
+        if (al) cmb_random_alias_destroy(al);
+        cmb_random_terminate();
+        return NULL;
+    }
     for (uint64_t k = 0; k < t->n; k++) {
         double x;
         switch (t->sampler) {
@@ -52,16 +74,20 @@ int main(int argc, char **argv)
     uint64_t seed = strtoull(argv[1], NULL, 0), n = strtoull(argv[2], NULL, 0); int nt = atoi(argv[3]);
     const char *s = argv[4];
     int sampler = !strcmp(s, "std_exponential") ? 0 : !strcmp(s, "exponential") ? 1 : !strcmp(s, "std_normal") ? 2 : !strcmp(s, "normal") ? 3 : -1;
+    static const char *const disc[] = { "alias", "loaded_dice", "dice", "flip", "bernoulli", "geometric", "poisson", "binomial" };
+    for (int k = 0; k < 8; k++) if (!strcmp(s, disc[k])) sampler = 10 + k;
     if (sampler < 0 || nt < 1 || nt > 64) return 2;
     double p0 = argc > 5 ? strtod(argv[5], NULL) : 1.0, p1 = argc > 6 ? strtod(argv[6], NULL) : 1.0;
+    static double vec[64]; unsigned vn = 0;
+    if (sampler == 10 || sampler == 11) { vn = (unsigned)p0; for (unsigned k = 0; k < vn && k < 64 && 6 + (int)k < argc; k++) vec[k] = strtod(argv[6 + k], NULL); }
     struct th *T = calloc((size_t)nt, sizeof *T); pthread_t *ids = calloc((size_t)nt, sizeof *ids);
-    for (int k = 0; k < nt; k++) { T[k].seed = mix(seed ^ mix((uint64_t)k + 1)); T[k].n = n; T[k].sampler = sampler; T[k].p0 = p0; T[k].p1 = p1; pthread_create(&ids[k], NULL, body, &T[k]); }
+    for (int k = 0; k < nt; k++) { T[k].seed = mix(seed ^ mix((uint64_t)k + 1)); T[k].n = n; T[k].sampler = sampler; T[k].p0 = p0; T[k].p1 = p1; T[k].vec = vec; T[k].vn = vn; pthread_create(&ids[k], NULL, body, &T[k]); }
     for (int k = 0; k < nt; k++) pthread_join(ids[k], NULL);
     uint64_t below = 0, above = 0, nan = 0; double mn = INFINITY, mx = -INFINITY;
     for (int k = 1; k < nt; k++) for (int b = 0; b < NB; b++) T[0].cnt[b] += T[k].cnt[b];
     for (int k = 0; k < nt; k++) { below += T[k].below; above += T[k].above; nan += T[k].nan; if (T[k].mn < mn) mn = T[k].mn; if (T[k].mx > mx) mx = T[k].mx; }
     printf("{\"sampler\":\"%s\",\"draws\":%llu,\"below\":%llu,\"above\":%llu,\"nan\":%llu,\"min\":%.17g,\"max\":%.17g,\"offset\":%g,\"per_unit\":128,\"counts\":[",
-           s, (unsigned long long)(n * (uint64_t)nt), (unsigned long long)below, (unsigned long long)above, (unsigned long long)nan, mn, mx, sampler >= 2 ? 12.0 : 0.0);
+           s, (unsigned long long)(n * (uint64_t)nt), (unsigned long long)below, (unsigned long long)above, (unsigned long long)nan, mn, mx, (sampler == 2 || sampler == 3) ? 12.0 : 0.0);
     for (int b = 0; b < NB; b++) printf("%s%llu", b ? "," : "", (unsigned long long)T[0].cnt[b]);
     printf("]}\n");
     return 0;
